@@ -18,6 +18,7 @@ import hashlib
 import io
 import json
 import os
+import sys
 import re
 
 from harness import core
@@ -201,6 +202,8 @@ def gen_case(rng, focus="c13"):
             opts["exclude"] = copy.deepcopy(rng.choice(EXCLUDES[2:]))
     elif focus == "c14":
         opts["deep"] = rng.random() < 0.15
+        # conflicts must be reported (and documents rolled back) by the thread-pool driver as well
+        opts["parallel"] = rng.choice([False, False, False, 2, True])
     entry = rng.choice(["Project.sync", "sync_projects", "Project.sync", "Job.sync", "sync_jobs"])
     case = {"src": src, "dst": dst, "opts": opts, "entry": entry}
     if entry in ("Job.sync", "sync_jobs"):
@@ -390,8 +393,14 @@ def real_options(opts):
 def run_real(case, sroot, droot):
     """the real call with everything it prints captured (a dry run lists paths on stdout; in parallel mode the
     pool's threads may still print while an exception unwinds)"""
-    with contextlib.redirect_stdout(io.StringIO()):
-        return _run_real_inner(case, sroot, droot)
+    old_si = sys.getswitchinterval()
+    if case["opts"].get("parallel"):
+        sys.setswitchinterval(1e-6)   # switch threads as often as possible: widens every race window
+    try:
+        with contextlib.redirect_stdout(io.StringIO()):
+            return _run_real_inner(case, sroot, droot)
+    finally:
+        sys.setswitchinterval(old_si)
 
 
 def _run_real_inner(case, sroot, droot):
